@@ -138,11 +138,12 @@ type fakeSyncer struct {
 	bridges []bridgesync.Bridge
 	claims  []bridgesync.Claim
 	last    uint64
+	fork    int // how many times a reorg replaced L2 data of the range
 }
 
 func (f *fakeSyncer) GetBlockByLER(context.Context, common.Hash) (uint64, error) { return 0, nil }
 func (f *fakeSyncer) GetExitRootByIndex(_ context.Context, index uint32) (treetypes.Root, error) {
-	return treetypes.Root{Hash: h("ler", int(index)), Index: index}, nil
+	return treetypes.Root{Hash: h("ler", int(index), f.fork), Index: index}, nil // a replaced bridge changes every exit root from its index on
 }
 func (f *fakeSyncer) GetBridges(_ context.Context, from, to uint64) ([]bridgesync.Bridge, error) {
 	var out []bridgesync.Bridge
@@ -245,12 +246,18 @@ type sigRecord struct {
 type recSigner struct {
 	key  *ecdsa.PrivateKey
 	recs []sigRecord
+	// slowOnce: the next signing request is answered only after this long (a remote signer under load); fake clock
+	slowOnce time.Duration
 }
 
 func (s *recSigner) Initialize(context.Context) error { return nil }
 func (s *recSigner) PublicAddress() common.Address    { return crypto.PubkeyToAddress(s.key.PublicKey) }
 func (s *recSigner) String() string                   { return "recording signer" }
 func (s *recSigner) SignHash(_ context.Context, hash common.Hash) ([]byte, error) {
+	if d := s.slowOnce; d > 0 {
+		s.slowOnce = 0
+		time.Sleep(d)
+	}
 	sig, err := crypto.Sign(hash.Bytes(), s.key)
 	if err != nil {
 		return nil, err
@@ -323,6 +330,7 @@ func (r *recFlow) BuildCertificate(ctx context.Context, p *types.CertificateBuil
 
 type world struct {
 	sp         spec
+	wire       func() // builds flows, client and sender (called inside the bubble)
 	dir        string
 	storage    *db.AggSenderSQLStorage
 	signer     *recSigner
@@ -340,6 +348,7 @@ type world struct {
 // does: the first bridge gets another amount and destination, the first claim another amount and metadata.
 func (w *world) mutateRange() {
 	if len(w.syncer.bridges) > 0 {
+		w.syncer.fork++
 		b := &w.syncer.bridges[0]
 		b.Amount = otherAmount(b.Amount, 0x0BADC0DE)
 		b.DestinationAddress = addr("dest-after-reorg")
@@ -439,27 +448,32 @@ func newWorld(sp spec, withPrev bool) (*world, error) {
 	}
 	syncer.last = blk + 3
 
-	bridgeQ := query.NewBridgeDataQuerier(logger, syncer, time.Second)
-	l1q := fakeL1Info{}
-	base := flows.NewBaseFlow(logger, bridgeQ, st, l1q, fakeLER{}, flows.NewBaseFlowConfigDefault())
-	w.signer = &recSigner{key: signerKey}
-	var real types.AggsenderFlow
-	if sp.Scheme == schemePP {
-		real = flows.NewPPFlow(logger, base, st, l1q, bridgeQ, w.signer, false, 0)
-	} else {
-		w.prover = &fakeProver{minimal: sp.Scheme == schemeFEPOpt}
-		real = flows.NewAggchainProverFlow(logger, flows.NewAggchainProverFlowConfigDefault(), base, w.prover, st, l1q, bridgeQ,
-			fakeGER{}, nil, w.signer, fakeOptimisticMode{on: sp.Scheme == schemeFEPOpt}, fakeOptimisticSigner{})
+	// The flows, the gRPC client and the sender are built INSIDE the synctest bubble (first thing runSteps does): a channel
+	// or timer one of them creates in its constructor then belongs to the bubble (waiting on it is durably blocking, so the
+	// fake clock can advance past a time-out). The SQLite storage above stays outside (database/sql's goroutines).
+	w.wire = func() {
+		bridgeQ := query.NewBridgeDataQuerier(logger, syncer, time.Second)
+		l1q := fakeL1Info{}
+		base := flows.NewBaseFlow(logger, bridgeQ, st, l1q, fakeLER{}, flows.NewBaseFlowConfigDefault())
+		w.signer = &recSigner{key: signerKey}
+		var real types.AggsenderFlow
+		if sp.Scheme == schemePP {
+			real = flows.NewPPFlow(logger, base, st, l1q, bridgeQ, w.signer, false, 0)
+		} else {
+			w.prover = &fakeProver{minimal: sp.Scheme == schemeFEPOpt}
+			real = flows.NewAggchainProverFlow(logger, flows.NewAggchainProverFlowConfigDefault(), base, w.prover, st, l1q, bridgeQ,
+				fakeGER{}, nil, w.signer, fakeOptimisticMode{on: sp.Scheme == schemeFEPOpt}, fakeOptimisticSigner{})
+		}
+		w.flow = &recFlow{AggsenderFlow: real}
+		w.submission = &fakeSubmission{}
+		w.client = agglayergrpc.NewVerifAgglayerGRPCClient(
+			&aggkitgrpc.ClientConfig{RequestTimeout: cfgtypes.NewDuration(time.Minute)}, nil, nil, w.submission)
+		ep := &fakeEpochs{ch: make(chan types.EpochEvent, 1)}
+		w.epochs = ep
+		ep.ch <- types.EpochEvent{Epoch: 1}
+		cfg := config.Config{MaxRetriesStoreCertificate: 1}
+		w.sender = aggsender.NewVerifAggSender(logger, cfg, st, w.client, ep, w.flow, fakeChecker{}, l2NetworkID)
 	}
-	w.flow = &recFlow{AggsenderFlow: real}
-	w.submission = &fakeSubmission{}
-	w.client = agglayergrpc.NewVerifAgglayerGRPCClient(
-		&aggkitgrpc.ClientConfig{RequestTimeout: cfgtypes.NewDuration(time.Minute)}, nil, nil, w.submission)
-	ep := &fakeEpochs{ch: make(chan types.EpochEvent, 1)}
-	w.epochs = ep
-	ep.ch <- types.EpochEvent{Epoch: 1}
-	cfg := config.Config{MaxRetriesStoreCertificate: 1}
-	w.sender = aggsender.NewVerifAggSender(logger, cfg, st, w.client, ep, w.flow, fakeChecker{}, l2NetworkID)
 	return w, nil
 }
 
